@@ -30,6 +30,7 @@ type Conn struct {
 	wat     []int // bytes delivered when each write happened
 	nwrites int
 	wfail   int // index of the first failing Write call, -1: none
+	wonce   int // index of the ONE Write call that fails (those after it succeed again), -1: none
 	closes  int
 	name    string // remote address reported to the server (distinguishes connections)
 }
@@ -48,7 +49,7 @@ var errReadTimeout net.Error = timeoutErr{}
 var errWriteFault = errors.New("verif: write fault")
 
 func NewConn(segs [][]byte, rfail bool, wfail int) *Conn {
-	c := &Conn{segs: segs, rfail: rfail, wfail: wfail}
+	c := &Conn{segs: segs, rfail: rfail, wfail: wfail, wonce: -1}
 	c.cond = sync.NewCond(&c.mu)
 	return c
 }
@@ -99,6 +100,9 @@ func (c *Conn) Write(p []byte) (int, error) {
 	idx := c.nwrites
 	c.nwrites++
 	if c.wfail >= 0 && idx >= c.wfail {
+		return 0, errWriteFault
+	}
+	if idx == c.wonce {
 		return 0, errWriteFault
 	}
 	c.writes = append(c.writes, append([]byte(nil), p...))
